@@ -41,7 +41,7 @@ pub struct Loop { pub period: Duration }
 pub open spec fn cap(period: u64) -> u64 { if period >= 60 { period } else { 60 } }   // "the larger of one minute and the configured period"
 
 impl Loop {
-//@extract id=loop_after_run file=junos-agent/src/task.rs impl=/Loop<T>/ fn=start expr=/match handle_task\(tokio::spawn\(job\)\)\.await/ rules=R2
+//@extract id=loop_after_run file=junos-agent/src/task.rs impl=/Loop<T>/ fn=start expr=/match handle_task\(tokio::spawn\(job\)\)\.await/ rules=R2,R17
 //@+ sub=/handle_task(tokio::spawn(job)).await=>outcome/ post=/backoff/
 //@sig pub fn after_run(&self, outcome: Result<(), AnyhowError>, interval: &mut Interval, mut backoff: Duration) -> (res: Duration)
 //@contract
